@@ -1,5 +1,6 @@
 From QV Require Import model.Sem proofs.SemProofs proofs.ScopeProofs proofs.FrameProofs.
-From QV Require Import model.Base model.Lang model.Types model.Tir model.Ceval model.Builder proofs.BuilderInv proofs.BuilderSafe proofs.BuilderSafeStmt.
+From QV Require Import model.Base model.Lang model.Types model.Tir model.Ceval model.Builder proofs.BuilderInv.
+From QV Require Import proofs.BuilderSafe proofs.BuilderSafeStmt.
 From Coq Require Import Arith Lia.
 Open Scope nat_scope.
 Open Scope list_scope.
@@ -51,29 +52,31 @@ Proof.
   - pose proof (g_len _ _ _ R). lia.
 Qed.
 
-Lemma finalize_RegB s r t n : Good s -> opened s r -> r + 1 < nb s -> n <= r + 1 ->
+Lemma finalize_RegB s r t n : Good s -> opened s r -> r + 1 < nb s -> n <= r + 1 -> tgt_ok t (nb s) r ->
   exists s', finalize_at r t s = (V tt, s') /\ RegB n s s' /\ nb s' = nb s /\ nloc s' = nloc s /\ (forall i, i <> r -> nth_error (bs_blocks s') i = nth_error (bs_blocks s) i).
 Proof.
-  intros G O Hr Hn. destruct (finalize_spec s r t G O Hr) as (s' & E1 & N1 & G1 & L1 & K1). exists s'. split; [exact E1|].
+  intros G O Hr Hn Htg. destruct (finalize_spec s r t G O Hr Htg) as (s' & E1 & N1 & G1 & L1 & K1). exists s'. split; [exact E1|].
   split; [|split; [exact N1|split; [unfold nloc; rewrite L1; reflexivity|exact K1]]].
   split; [exact G1|lia| |exists []; rewrite app_nil_r; exact L1]. intros i Hi. apply K1. lia.
 Qed.
 
 Lemma connect_cases_safe : forall conds starts d s n lo, Good s -> LOpen s (map snd conds) -> inc lo (map snd conds) -> n <= lo + 1 ->
+  Forall (fun st => st < nb s) starts -> d < nb s ->
   match connect_cases conds starts d s with
   | (P _, _) => False
   | (_, s') => RegB n s s' /\ nb s' = nb s /\ nloc s' = nloc s /\ (forall i, ~ In i (map snd conds) -> nth_error (bs_blocks s') i = nth_error (bs_blocks s) i)
   end.
 Proof.
-  induction conds as [|[c cref] cr IH]; intros starts d s n lo G HO Hi Hn; cbn [connect_cases].
+  induction conds as [|[c cref] cr IH]; intros starts d s n lo G HO Hi Hn Hst Hd; cbn [connect_cases].
   - cbn. split; [apply RegB_refl, G|auto].
   - destruct starts as [|st sr]; [cbn; split; [apply RegB_refl, G|auto]|].
     cbn [map snd] in HO, Hi. destruct Hi as [Hlo Hi]. inversion HO as [|? ? [Oc Hc] HO']; subst.
     unfold mbind at 1.
-    destruct (finalize_RegB s cref (TmBrCond c st match sr with [] => d | _ :: _ => S cref end) n G Oc Hc ltac:(lia)) as (s1 & E1 & R1 & N1 & L1 & K1). rewrite E1.
+    inversion Hst as [|? ? Hst1 Hst2]; subst.
+    destruct (finalize_RegB s cref (TmBrCond c st match sr with [] => d | _ :: _ => S cref end) n G Oc Hc ltac:(lia) ltac:(cbn; split; [exact Hst1|destruct sr; lia])) as (s1 & E1 & R1 & N1 & L1 & K1). rewrite E1.
     assert (HO1 : LOpen s1 (map snd cr)).
     { eapply LOpen_keep; [exact N1| |exact HO']. intros l Hl. apply K1. intros ->. exact (inc_not_in lo _ _ Hi Hl). }
-    specialize (IH sr d s1 n (S cref) (g_good _ _ _ R1) HO1 Hi ltac:(lia)).
+    specialize (IH sr d s1 n (S cref) (g_good _ _ _ R1) HO1 Hi ltac:(lia) ltac:(rewrite N1; exact Hst2) ltac:(lia)).
     destruct (connect_cases cr sr d s1) as [[u| |x] s2]; [| |exact IH].
     + destruct IH as (R2 & N2 & L2 & K2). split; [eapply RegB_trans; eassumption|]. split; [lia|]. split; [lia|].
       intros i Hni. cbn [map snd In] in Hni. rewrite K2 by tauto. apply K1. intros ->. apply Hni. now left.
@@ -91,7 +94,7 @@ Proof.
   - cbn. split; [apply RegB_refl, G|auto].
   - destruct Hi as [Hlo Hi]. inversion HO as [|? ? [Ob Hb] HO']; subst.
     unfold mbind at 1.
-    destruct (finalize_RegB s b (TmBr (S b)) n G Ob Hb ltac:(lia)) as (s1 & E1 & R1 & N1 & L1 & K1). rewrite E1.
+    destruct (finalize_RegB s b (TmBr (S b)) n G Ob Hb ltac:(lia) ltac:(cbn; lia)) as (s1 & E1 & R1 & N1 & L1 & K1). rewrite E1.
     assert (HO1 : LOpen s1 r).
     { eapply LOpen_keep; [exact N1| |exact HO']. intros l Hl. apply K1. intros ->. exact (inc_not_in lo _ _ Hi Hl). }
     specialize (IH s1 n (S b) (g_good _ _ _ R1) HO1 Hi ltac:(lia)).
@@ -108,6 +111,17 @@ Proof.
   - eexists _, _. split; [reflexivity|lia].
   - destruct (IH p ltac:(lia)) as (d & rest & E & Hl). rewrite E. eexists _, _. split; [reflexivity|]. cbn. lia.
 Qed.
+Lemma remove_nth_Forall {A} (Q : A -> Prop) : forall (l : list A) p d rest, remove_nth l p = Some (d, rest) -> Forall Q l -> Q d /\ Forall Q rest.
+Proof.
+  induction l as [|x r IH]; intros [|p] d rest H HF; cbn in H; try discriminate.
+  - inversion H; subst. inversion HF; subst. auto.
+  - destruct (remove_nth r p) as [[y r']|] eqn:E; [|discriminate]. inversion H; subst. inversion HF; subst.
+    destruct (IH p d r' E H3) as [Hd Hr]. split; [exact Hd|constructor; assumption].
+Qed.
+Lemma In_removelast_in {A} (l : list A) y : In y (removelast l) -> In y l.
+Proof. induction l as [|x [|z r] IH]; cbn; intros H; [contradiction|contradiction|]. destruct H as [->|H]; [now left|right; apply IH, H]. Qed.
+Lemma last_in_or {A} (l : list A) d : last l d = d \/ In (last l d) l.
+Proof. induction l as [|x [|z r] IH]; cbn; [now left|right; now left|]. destruct IH as [H|H]; [left; exact H|right; right; exact H]. Qed.
 Lemma removelast_length {A} (l : list A) : List.length (removelast l) = List.length l - 1.
 Proof. induction l as [|x [|y r] IH]; cbn in *; try lia. Qed.
 
@@ -120,15 +134,25 @@ Proof.
   set (starts0 := match bodies with [] => [] | _ :: _ => S x :: map S (removelast bodies) end).
   assert (Hs0 : List.length starts0 = List.length bodies).
   { unfold starts0. destruct bodies as [|b r]; [reflexivity|]. cbn [List.length]. rewrite map_length, removelast_length. cbn [List.length]. lia. }
+  assert (Hall : forall l, In l (h :: x :: bodies) -> l + 1 < nb s).
+  { intros l Hl. apply LOpen_app in HO. destruct HO as [_ HOr]. unfold LOpen in HOr. rewrite Forall_forall in HOr. exact (proj2 (HOr l Hl)). }
+  assert (Hst0 : Forall (fun st => st < nb s) starts0).
+  { unfold starts0. destruct bodies as [|b r]; [constructor|]. constructor; [specialize (Hall x ltac:(right; now left)); lia|].
+    apply Forall_forall. intros y Hy. apply in_map_iff in Hy. destruct Hy as (z & <- & Hz). apply In_removelast_in in Hz.
+    specialize (Hall z ltac:(right; right; exact Hz)). lia. }
+  assert (Hlast : S (last bodies x) < nb s).
+  { destruct (last_in_or bodies x) as [->|Hin]; [specialize (Hall x ltac:(right; now left)); lia|specialize (Hall _ ltac:(right; right; exact Hin)); lia]. }
   unfold mbind at 1.
   assert (Hsd : exists starts ds, (match default_pos with
                                    | None => ret (starts0, None)
                                    | Some p => match remove_nth starts0 p with Some (d, rest) => ret (rest, Some d) | None => panic "builder.rs visit_switch_statement: case_body_start_refs.remove(p) out of range" end
-                                   end) s = (V (starts, ds), s) /\ List.length starts = List.length conds).
+                                   end) s = (V (starts, ds), s) /\ List.length starts = List.length conds /\ Forall (fun st => st < nb s) starts /\
+                                  match ds with Some d => d < nb s | None => True end).
   { destruct default_pos as [p|].
-    - destruct Hdp as [Hp Hl]. destruct (remove_nth_some starts0 p ltac:(lia)) as (d & rest & E & Hr). rewrite E. exists rest, (Some d). split; [reflexivity|lia].
-    - exists starts0, None. split; [reflexivity|lia]. }
-  destruct Hsd as (starts & ds & Esd & Hls). rewrite Esd.
+    - destruct Hdp as [Hp Hl]. destruct (remove_nth_some starts0 p ltac:(lia)) as (d & rest & E & Hr). rewrite E. exists rest, (Some d).
+      destruct (remove_nth_Forall _ _ _ _ _ E Hst0) as [Hd Hrest]. split; [reflexivity|]. split; [lia|]. split; assumption.
+    - exists starts0, None. split; [reflexivity|]. split; [lia|]. split; [exact Hst0|exact I]. }
+  destruct Hsd as (starts & ds & Esd & Hls & Hsts & Hds). rewrite Esd.
   rewrite Hls, Nat.eqb_refl. cbn [negb].
   (* the four groups of labels *)
   apply LOpen_app in HO. destruct HO as [HOc HOr]. inversion HOr as [|? ? [Oh Hh] HOr']; subst. inversion HOr' as [|? ? [Ox Hx] HOb]; subst.
@@ -138,7 +162,7 @@ Proof.
   assert (Hcb : forall l b, In l (map snd conds) -> In b bodies -> l < b) by (intros l b Hl Hb; eapply inc_app_lt; [exact Hinc|exact Hl|right; right; exact Hb]).
   assert (Hxb : forall b, In b bodies -> x < b) by (intros b Hb; pose proof (inc_ge _ _ Hib b Hb); lia).
   unfold mbind at 1.
-  pose proof (connect_cases_safe conds starts (match ds with Some d => d | None => S (last bodies x) end) s n lo G HOc Hic Hn) as R1.
+  pose proof (connect_cases_safe conds starts (match ds with Some d => d | None => S (last bodies x) end) s n lo G HOc Hic Hn Hsts ltac:(destruct ds; assumption)) as R1.
   destruct (connect_cases conds starts _ s) as [[u| |e] s1]; [| |exact R1].
   2:{ destruct R1 as (R1 & _ & L1 & _). split; assumption. }
   destruct R1 as (R1 & N1 & L1 & K1). pose proof (g_good _ _ _ R1) as G1.
@@ -154,9 +178,10 @@ Proof.
   assert (Oh2 : opened s2 h) by (apply (opened_eq s1); [apply K2; intros Hb; specialize (Hxb _ Hb); lia|exact Oh1]).
   assert (Ox2 : opened s2 x) by (apply (opened_eq s1); [apply K2; intros Hb; specialize (Hxb _ Hb); lia|exact Ox1]).
   unfold mbind at 1.
-  destruct (finalize_RegB s2 h (TmBr (S x)) n G2 Oh2 ltac:(lia) ltac:(lia)) as (s3 & E3 & R3 & N3 & L3 & K3). rewrite E3.
+  destruct (finalize_RegB s2 h (TmBr (S x)) n G2 Oh2 ltac:(lia) ltac:(lia) ltac:(cbn; lia)) as (s3 & E3 & R3 & N3 & L3 & K3). rewrite E3.
   assert (Ox3 : opened s3 x) by (apply (opened_eq s2); [apply K3; lia|exact Ox2]).
-  destruct (finalize_RegB s3 x (TmBr (S (last bodies x))) n (g_good _ _ _ R3) Ox3 ltac:(lia) ltac:(lia)) as (s4 & E4 & R4 & N4 & L4 & K4). rewrite E4.
+  assert (Hlastge : x <= last bodies x) by (destruct (last_in_or bodies x) as [->|Hin]; [apply le_n|specialize (Hxb _ Hin); lia]).
+  destruct (finalize_RegB s3 x (TmBr (S (last bodies x))) n (g_good _ _ _ R3) Ox3 ltac:(lia) ltac:(lia) ltac:(cbn; lia)) as (s4 & E4 & R4 & N4 & L4 & K4). rewrite E4.
   split; [eapply RegB_trans; [exact R1|eapply RegB_trans; [exact R2|eapply RegB_trans; eassumption]]|lia].
 Qed.
 
@@ -230,23 +255,23 @@ Section Switch.
       exists s'. split; [exact E1|]. cbn in B1, L1. auto.
   Qed.
 
-  Lemma SafeS_gon (w : lenv -> stmt -> M sres) l : Forall (fun x => forall env, SafeS env (w env x)) l ->
-    forall env, SafeS env ((fix gon (env : lenv) (l : list stmt) {struct l} : M sres :=
+  Lemma SafeS_gon bk (w : lenv -> stmt -> M sres) l : Forall (fun x => forall env, SafeS env bk (w env x)) l ->
+    forall env, SafeS env bk ((fix gon (env : lenv) (l : list stmt) {struct l} : M sres :=
                               match l with
                               | [] => ret (true, env)
                               | x :: r => let! a := w env x in let! _ := exempt_new env (snd a) in let! b := gon (snd a) r in ret (fst a && fst b, snd b)
                               end) env l).
   Proof.
-    induction 1 as [|x r Hx Hr IH]; intros env st n G Hw Hn.
+    induction 1 as [|x r Hx Hr IH]; intros env st n G Hw Hb Hn.
     - cbn. split; [apply RegB_refl, G|exact Hw].
-    - unfold mbind at 1. pose proof (Hx env st n G Hw Hn) as R1. unfold StmtPost in R1.
+    - unfold mbind at 1. pose proof (Hx env st n G Hw Hb Hn) as R1. unfold StmtPost in R1.
       destruct (w env x st) as [[[ok1 env1]| |x0] s1]; [| |exact R1]; [|exact R1].
       destruct R1 as [R1 W1]. cbn [snd fst]. unfold mbind at 1.
       destruct (exempt_new_spec env env1 s1) as (s1' & Ee & Be & Le). rewrite Ee.
       assert (Re : RegB n s1 s1') by (apply RegB_same_blocks; [exact (g_good _ _ _ R1)|exact Be|exists []; rewrite app_nil_r; exact Le]).
       assert (W1' : envwf (nloc s1') env1) by (unfold nloc; rewrite Le; exact W1).
       unfold mbind at 1.
-      pose proof (IH env1 s1' n (g_good _ _ _ Re) W1' ltac:(pose proof (g_len _ _ _ R1); pose proof (g_len _ _ _ Re); lia)) as R2. unfold StmtPost in R2.
+      pose proof (IH env1 s1' n (g_good _ _ _ Re) W1' ltac:(pose proof (g_len _ _ _ R1); pose proof (g_len _ _ _ Re); lia) ltac:(pose proof (g_len _ _ _ R1); pose proof (g_len _ _ _ Re); lia)) as R2. unfold StmtPost in R2.
       match type of R2 with match ?m s1' with _ => _ end => destruct (m s1') as [[[ok2 env2]| |x0] s2] end; [| |exact R2].
       + destruct R2 as [R2 W2]. cbn. split; [eapply RegB_trans; [exact R1|eapply RegB_trans; eassumption]|exact W2].
       + eapply RegB_trans; [exact R1|eapply RegB_trans; eassumption].
@@ -270,15 +295,15 @@ Section Switch.
       | x :: r => let! a := w env x in let! _ := exempt_new env (snd a) in let! b := gon (snd a) r in ret (fst a && fst b, snd b)
       end.
 
-  Lemma body_then_mark w body env s : Forall (fun x => forall env, SafeS env (w env x)) body -> Good s -> envwf (nloc s) env ->
+  Lemma body_then_mark bk w body env s : Forall (fun x => forall env, SafeS env bk (w env x)) body -> Good s -> envwf (nloc s) env -> bk <= nb s ->
     match (let! res := gon_of w env body in let! bl := (if fst res then let! lbl := mark_branch_point in ret [lbl] else ret []) in ret (snd res, bl)) s with
     | (P _, _) => False
     | (F, s') => RegB (nb s) s s'
     | (V (env', ls), s') => RegB (nb s) s s' /\ envwf (nloc s') env' /\ inc (nb s - 1) ls /\ LOpen s' ls
     end.
   Proof.
-    intros Hb G Hw. unfold mbind at 1.
-    pose proof (SafeS_gon w body Hb env s (nb s) G Hw (le_n _)) as R1. unfold StmtPost in R1. fold (gon_of w) in R1.
+    intros Hb G Hw Hbk. unfold mbind at 1.
+    pose proof (SafeS_gon bk w body Hb env s (nb s) G Hw Hbk (le_n _)) as R1. unfold StmtPost in R1. fold (gon_of w) in R1.
     destruct (gon_of w env body s) as [[[ok env1]| |x] s1]; [| |exact R1]; [|exact R1].
     destruct R1 as [R1 W1]. cbn [fst snd]. unfold mbind at 1.
     destruct (opt_mark_safe ok s1 (g_good _ _ _ R1)) as (ls & s2 & E2 & R2 & M2 & I2 & O2). rewrite E2. cbn [ret].
@@ -296,19 +321,19 @@ Section Switch.
     | None => ret (env, [])
     end.
 
-  Lemma dpart_safe w default env i s : dflt_all (fun x => forall env, SafeS env (w env x)) default -> Good s -> envwf (nloc s) env ->
+  Lemma dpart_safe bk w default env i s : dflt_all (fun x => forall env, SafeS env bk (w env x)) default -> Good s -> envwf (nloc s) env -> bk <= nb s ->
     match dpart w default env i s with
     | (P _, _) => False
     | (F, s') => RegB (nb s) s s'
     | (V (env', ls), s') => RegB (nb s) s s' /\ envwf (nloc s') env' /\ inc (nb s - 1) ls /\ LOpen s' ls
     end.
   Proof.
-    intros Hd G Hw. unfold dpart. destruct default as [[pos body]|].
+    intros Hd G Hw Hbk. unfold dpart. destruct default as [[pos body]|].
     2:{ cbn. split; [apply RegB_refl, G|]. split; [exact Hw|]. split; [exact I|constructor]. }
     destruct (Nat.eqb pos i).
     2:{ cbn. split; [apply RegB_refl, G|]. split; [exact Hw|]. split; [exact I|constructor]. }
     cbn [dflt_all] in Hd. unfold mbind at 1.
-    pose proof (SafeS_gon w body Hd env s (nb s) G Hw (le_n _)) as R1. unfold StmtPost in R1. fold (gon_of w) in R1.
+    pose proof (SafeS_gon bk w body Hd env s (nb s) G Hw Hbk (le_n _)) as R1. unfold StmtPost in R1. fold (gon_of w) in R1.
     destruct (gon_of w env body s) as [[[ok env1]| |x] s1]; [| |exact R1]; [|exact R1].
     destruct R1 as [R1 W1]. cbn [fst snd]. pose proof (g_good _ _ _ R1) as G1. pose proof (g_len _ _ _ R1) as N1.
     destruct ok.
@@ -318,9 +343,9 @@ Section Switch.
     - cbn. split; [exact R1|]. split; [exact W1|]. split; [exact I|constructor].
   Qed.
 
-  Lemma bodies_safe w default : dflt_all (fun x => forall env, SafeS env (w env x)) default ->
-    forall cases, Forall (fun c => Forall (fun x => forall env, SafeS env (w env x)) (snd c)) cases ->
-    forall env i s, Good s -> envwf (nloc s) env ->
+  Lemma bodies_safe bk w default : dflt_all (fun x => forall env, SafeS env bk (w env x)) default ->
+    forall cases, Forall (fun c => Forall (fun x => forall env, SafeS env bk (w env x)) (snd c)) cases ->
+    forall env i s, Good s -> envwf (nloc s) env -> bk <= nb s ->
     match (fix go (env : lenv) (i : nat) (l : list (expr * list stmt)) {struct l} : M (list nat) :=
              let! d := dpart w default env i in
              match l with
@@ -336,21 +361,21 @@ Section Switch.
     | (V ls, s') => RegB (nb s) s s' /\ inc (nb s - 1) ls /\ LOpen s' ls
     end.
   Proof.
-    intros Hd cases Hc. induction Hc as [|[cv nodes] r Hn Hr IH]; intros env i s G Hw.
-    - unfold mbind at 1. pose proof (dpart_safe w default env i s Hd G Hw) as R1.
+    intros Hd cases Hc. induction Hc as [|[cv nodes] r Hn Hr IH]; intros env i s G Hw Hbk.
+    - unfold mbind at 1. pose proof (dpart_safe bk w default env i s Hd G Hw Hbk) as R1.
       destruct (dpart w default env i s) as [[[env1 ls]| |x] s1]; [| |exact R1]; [|exact R1].
       destruct R1 as (R1 & W1 & I1 & O1). cbn. auto.
-    - unfold mbind at 1. pose proof (dpart_safe w default env i s Hd G Hw) as R1.
+    - unfold mbind at 1. pose proof (dpart_safe bk w default env i s Hd G Hw Hbk) as R1.
       destruct (dpart w default env i s) as [[[env1 ls1]| |x] s1]; [| |exact R1]; [|exact R1].
       destruct R1 as (R1 & W1 & I1 & O1). cbn [fst snd]. pose proof (g_good _ _ _ R1) as G1. pose proof (g_len _ _ _ R1) as N1.
       unfold mbind at 1. cbn [snd] in Hn.
-      pose proof (SafeS_gon w nodes Hn env1 s1 (nb s1) G1 W1 (le_n _)) as R2. unfold StmtPost in R2. fold (gon_of w) in R2.
+      pose proof (SafeS_gon bk w nodes Hn env1 s1 (nb s1) G1 W1 ltac:(lia) (le_n _)) as R2. unfold StmtPost in R2. fold (gon_of w) in R2.
       destruct (gon_of w env1 nodes s1) as [[[ok env2]| |x] s2]; [| |exact R2].
       2:{ eapply RegB_trans; [exact R1|eapply RegB_weaken; [|exact R2]; lia]. }
       destruct R2 as [R2 W2]. cbn [fst snd]. pose proof (g_good _ _ _ R2) as G2. pose proof (g_len _ _ _ R2) as N2.
       unfold mbind at 1. destruct (opt_mark_safe ok s2 G2) as (ls2 & s3 & E3 & R3 & M3 & I3 & O3). rewrite E3.
       pose proof (g_good _ _ _ R3) as G3. pose proof (g_len _ _ _ R3) as N3.
-      unfold mbind at 1. specialize (IH env2 (S i) s3 G3 ltac:(rewrite M3; exact W2)).
+      unfold mbind at 1. specialize (IH env2 (S i) s3 G3 ltac:(rewrite M3; exact W2) ltac:(lia)).
       match type of IH with match ?m s3 with _ => _ end => destruct (m s3) as [[ls4| |x] s4] end; [| |exact IH].
       2:{ eapply RegB_trans; [exact R1|]. eapply RegB_trans; [eapply RegB_weaken; [|exact R2]; lia|]. eapply RegB_trans; [eapply RegB_weaken; [|exact R3]; lia|eapply RegB_weaken; [|exact IH]; lia]. }
       destruct IH as (R4 & I4 & O4). pose proof (g_len _ _ _ R4) as N4. cbn [ret].
@@ -422,22 +447,22 @@ Section Switch.
     | (V cs, s') => RegB (nb s) s s' /\ inc (nb s - 1) (map snd cs) /\ LOpen s' (map snd cs)
     end.
   Proof. apply conds_safe. Qed.
-  Lemma bodies_safe' w default cases env i s : dflt_all (fun x => forall env, SafeS env (w env x)) default ->
-    Forall (fun c => Forall (fun x => forall env, SafeS env (w env x)) (snd c)) cases -> Good s -> envwf (nloc s) env ->
+  Lemma bodies_safe' bk w default cases env i s : dflt_all (fun x => forall env, SafeS env bk (w env x)) default ->
+    Forall (fun c => Forall (fun x => forall env, SafeS env bk (w env x)) (snd c)) cases -> Good s -> envwf (nloc s) env -> bk <= nb s ->
     match bodies_of w default env i cases s with
     | (P _, _) => False
     | (F, s') => RegB (nb s) s s'
     | (V ls, s') => RegB (nb s) s s' /\ inc (nb s - 1) ls /\ LOpen s' ls
     end.
-  Proof. intros Hd Hc G Hw. apply bodies_safe; assumption. Qed.
+  Proof. intros Hd Hc G Hw Hbk. apply (bodies_safe bk); assumption. Qed.
 
   Lemma SafeS_switch v cases default :
-    Forall (fun c => Forall (fun x => forall env brk, SafeS env (walk_stmt E env brk x)) (snd c)) cases ->
-    dflt_all (fun x => forall env brk, SafeS env (walk_stmt E env brk x)) default ->
+    Forall (fun c => Forall (fun x => forall env brk, SafeS env (bound_of brk) (walk_stmt E env brk x)) (snd c)) cases ->
+    dflt_all (fun x => forall env brk, SafeS env (bound_of brk) (walk_stmt E env brk x)) default ->
     match default with Some (pos, _) => pos <= List.length cases | None => True end ->
-    forall env brk, SafeS env (walk_stmt E env brk (SSwitch v cases default)).
+    forall env brk, SafeS env (bound_of brk) (walk_stmt E env brk (SSwitch v cases default)).
   Proof.
-    intros Hc Hd Hwf env brk st n G Hw Hn. rewrite walk_switch_eq.
+    intros Hc Hd Hwf env brk st n G Hw Hbk Hn. rewrite walk_switch_eq.
     unfold mbind at 1. rewrite attempt_eq.
     pose proof (Safe_run (nloc st) (walk_rvalue E env v) st ltac:(unfold walk_rvalue; apply Safe_rv, walk_expr_safe, Hw) G (le_n _)) as R1.
     destruct (walk_rvalue E env v st) as [[lhs| |x] s1]; [| |exact R1].
@@ -462,11 +487,11 @@ Section Switch.
     pose proof (g_good _ _ _ R4) as G4.
     assert (W4 : envwf (nloc s4) env) by (eapply envwf_mono; [exact W1|lia]).
     unfold mbind at 1.
-    assert (Hd' : dflt_all (fun y => forall env0, SafeS env0 ((fun env1 y0 => walk_stmt E env1 (Some x) y0) env0 y)) default).
-    { destruct default as [[pos body]|]; [|exact I]. cbn [dflt_all] in *. eapply Forall_impl; [|exact Hd]. intros y Hy env0. apply Hy. }
-    assert (Hc' : Forall (fun c => Forall (fun y => forall env0, SafeS env0 ((fun env1 y0 => walk_stmt E env1 (Some x) y0) env0 y)) (snd c)) cases).
-    { eapply Forall_impl; [|exact Hc]. intros c Hcc. eapply Forall_impl; [|exact Hcc]. intros y Hy env0. apply Hy. }
-    pose proof (bodies_safe' (fun env1 y0 => walk_stmt E env1 (Some x) y0) default cases env 0 s4 Hd' Hc' G4 W4) as R5.
+    assert (Hd' : dflt_all (fun y => forall env0, SafeS env0 (S (S x)) ((fun env1 y0 => walk_stmt E env1 (Some x) y0) env0 y)) default).
+    { destruct default as [[pos body]|]; [|exact I]. cbn [dflt_all] in *. eapply Forall_impl; [|exact Hd]. intros y Hy env0. exact (Hy env0 (Some x)). }
+    assert (Hc' : Forall (fun c => Forall (fun y => forall env0, SafeS env0 (S (S x)) ((fun env1 y0 => walk_stmt E env1 (Some x) y0) env0 y)) (snd c)) cases).
+    { eapply Forall_impl; [|exact Hc]. intros c Hcc. eapply Forall_impl; [|exact Hcc]. intros y Hy env0. exact (Hy env0 (Some x)). }
+    pose proof (bodies_safe' (S (S x)) (fun env1 y0 => walk_stmt E env1 (Some x) y0) default cases env 0 s4 Hd' Hc' G4 W4 ltac:(unfold x; lia)) as R5.
     destruct (bodies_of (fun env1 y0 => walk_stmt E env1 (Some x) y0) default env 0 cases s4) as [[bodies| |e] s5]; [| |exact R5].
     2:{ eapply RegB_weaken; [exact Hn|]. eapply RegB_trans; [exact R1|]. eapply RegB_trans; [eapply RegB_weaken; [|exact R2]; lia|].
         eapply RegB_trans; [eapply RegB_weaken; [|exact R3]; lia|]. eapply RegB_trans; [eapply RegB_weaken; [|exact R4]; lia|eapply RegB_weaken; [|exact R5]; lia]. }
@@ -515,15 +540,15 @@ Fixpoint wfsw (s : stmt) : bool :=
   | _ => true
   end.
 
-Theorem walk_stmt_safe E : forall s, wfsw s = true -> forall env brk, SafeS env (walk_stmt E env brk s).
+Theorem walk_stmt_safe E : forall s, wfsw s = true -> forall env brk, SafeS env (bound_of brk) (walk_stmt E env brk s).
 Proof.
-  apply (stmt_ind' (fun s => wfsw s = true -> forall env brk, SafeS env (walk_stmt E env brk s))).
+  apply (stmt_ind' (fun s => wfsw s = true -> forall env brk, SafeS env (bound_of brk) (walk_stmt E env brk s))).
   - intros e _ env brk. apply SafeS_expr.
   - intros ss Hss Hn env brk. cbn [wfsw] in Hn. rewrite forallb_forall in Hn.
-    intros st n G Hw Hnn. cbn [walk_stmt]. unfold mbind at 1.
-    assert (HF : Forall (fun x => forall env0, SafeS env0 (walk_stmt E env0 brk x)) ss).
+    intros st n G Hw Hb Hnn. cbn [walk_stmt]. unfold mbind at 1.
+    assert (HF : Forall (fun x => forall env0, SafeS env0 (bound_of brk) (walk_stmt E env0 brk x)) ss).
     { apply Forall_forall. intros x Hx env0. rewrite Forall_forall in Hss. apply Hss; [exact Hx|apply Hn, Hx]. }
-    pose proof (SafeS_nodes (fun env0 x => walk_stmt E env0 brk x) ss HF env st n G Hw Hnn) as R. unfold StmtPost in R.
+    pose proof (SafeS_nodes (bound_of brk) (fun env0 x => walk_stmt E env0 brk x) ss HF env st n G Hw Hb Hnn) as R. unfold StmtPost in R.
     match type of R with match ?m st with _ => _ end => destruct (m st) as [[[ok env']| |x0] s1] end; [| |exact R].
     + destruct R as [R W]. cbn. split; [exact R|]. eapply envwf_mono; [exact Hw|eapply RegB_nloc, R].
     + exact R.
@@ -594,10 +619,12 @@ Theorem walk_callback_never_panics E cb : wf_callback cb = true ->
   match walk_callback E cb bstate0 with (P _, _) => False | _ => True end.
 Proof.
   intros Hwf.
-  assert (G0 : Good bstate0) by (split; [apply le_n|exists block0; split; reflexivity]).
+  assert (G0 : Good bstate0).
+  { split; [apply le_n|]. split; [exists block0; split; reflexivity|].
+    intros i b t Hi Hb. destruct i as [|[|i]]; cbn in Hi; try discriminate. inversion Hi; subst. discriminate. }
   assert (W0 : envwf (nloc bstate0) []) by (intros x l k Hx; discriminate).
   destruct cb as [s|f]; cbn [walk_callback wf_callback] in *.
-  - pose proof (walk_stmt_safe E s Hwf [] None bstate0 (nb bstate0) G0 W0 (le_n _)) as H. unfold StmtPost in H.
+  - pose proof (walk_stmt_safe E s Hwf [] None bstate0 (nb bstate0) G0 W0 (Nat.le_0_l _) (le_n _)) as H. unfold StmtPost in H.
     destruct (walk_stmt E [] None s bstate0) as [[[ok env']| |x] s1]; auto.
   - destruct (f_named f).
     + cbn. exact I.
@@ -605,7 +632,7 @@ Proof.
       assert (Hwarn : exists s1, (if f_return_ty f then warn XReturnTypeIgnored else ret tt) bstate0 = (V tt, s1) /\ bs_blocks s1 = bs_blocks bstate0 /\ bs_locals s1 = bs_locals bstate0 /\ bs_nparams s1 = bs_nparams bstate0).
       { destruct (f_return_ty f); eexists; (split; [reflexivity|cbn; auto]). }
       destruct Hwarn as (s1 & E1 & B1 & L1 & P1). rewrite E1.
-      assert (G1 : Good s1) by (unfold Good, nb, opened in *; rewrite B1; exact G0).
+      assert (G1 : Good s1) by (eapply Good_same_blocks; [exact B1|exact G0]).
       assert (W1 : envwf (nloc s1) []) by (intros x l k Hx; discriminate).
       unfold mbind at 1.
       pose proof (walk_params_safe E (f_params f) [] s1 G1 W1 ltac:(rewrite L1, P1; reflexivity)) as R2.
@@ -619,6 +646,41 @@ Proof.
         unfold mbind at 1.
         pose proof (Safe_set_completion (nloc s3) v s3 (nb s3) (g_good _ _ _ R3) (le_n _) (le_n _)) as R4.
         destruct (visit_expression_statement v s3) as [[u| |x] s4]; [cbn; exact I|exact I|exact R4].
-      * pose proof (walk_stmt_safe E s Hwf env1 None s2 (nb s2) G2 W2 (le_n _)) as H. unfold StmtPost in H.
+      * pose proof (walk_stmt_safe E s Hwf env1 None s2 (nb s2) G2 W2 (Nat.le_0_l _) (le_n _)) as H. unfold StmtPost in H.
         destruct (walk_stmt E env1 None s s2) as [[[ok env']| |x] s3]; auto.
+Qed.
+
+(* ... and it ends in a state whose current block is open and in which every jump written targets an existing block *)
+Theorem walk_callback_good E cb : wf_callback cb = true ->
+  match walk_callback E cb bstate0 with (P _, _) => False | (_, s') => Good s' end.
+Proof.
+  intros Hwf.
+  assert (G0 : Good bstate0).
+  { split; [apply le_n|]. split; [exists block0; split; reflexivity|].
+    intros i b t Hi Hb. destruct i as [|[|i]]; cbn in Hi; try discriminate. inversion Hi; subst. discriminate. }
+  assert (W0 : envwf (nloc bstate0) []) by (intros x l k Hx; discriminate).
+  destruct cb as [s|f]; cbn [walk_callback wf_callback] in *.
+  - pose proof (walk_stmt_safe E s Hwf [] None bstate0 (nb bstate0) G0 W0 (Nat.le_0_l _) (le_n _)) as H. unfold StmtPost in H.
+    destruct (walk_stmt E [] None s bstate0) as [[[ok env']| |x] s1]; [exact (g_good _ _ _ (proj1 H))|exact (g_good _ _ _ H)|exact H].
+  - destruct (f_named f).
+    + cbn. eapply Good_same_blocks; [|exact G0]. reflexivity.
+    + unfold mbind at 1.
+      assert (Hwarn : exists s1, (if f_return_ty f then warn XReturnTypeIgnored else ret tt) bstate0 = (V tt, s1) /\ bs_blocks s1 = bs_blocks bstate0 /\ bs_locals s1 = bs_locals bstate0 /\ bs_nparams s1 = bs_nparams bstate0).
+      { destruct (f_return_ty f); eexists; (split; [reflexivity|cbn; auto]). }
+      destruct Hwarn as (s1 & E1 & B1 & L1 & P1). rewrite E1.
+      assert (G1 : Good s1) by (eapply Good_same_blocks; [exact B1|exact G0]).
+      assert (W1 : envwf (nloc s1) []) by (intros x l k Hx; discriminate).
+      unfold mbind at 1.
+      pose proof (walk_params_safe E (f_params f) [] s1 G1 W1 ltac:(rewrite L1, P1; reflexivity)) as R2.
+      destruct (walk_params E [] (f_params f) s1) as [[[ok env1]| |x] s2]; [| exact (g_good _ _ _ R2) |exact R2].
+      destruct R2 as [R2 W2]. cbn [fst snd]. pose proof (g_good _ _ _ R2) as G2. destruct ok; cbn [negb]; [|cbn; exact G2].
+      destruct (f_body f) as [e|s].
+      * unfold mbind at 1. rewrite attempt_eq.
+        pose proof (Safe_run (nloc s2) (walk_rvalue E env1 e) s2 ltac:(unfold walk_rvalue; apply Safe_rv, walk_expr_safe, W2) G2 (le_n _)) as R3.
+        destruct (walk_rvalue E env1 e s2) as [[v| |x] s3]; [| cbn; exact (g_good _ _ _ R3) |exact R3].
+        unfold mbind at 1.
+        pose proof (Safe_set_completion (nloc s3) v s3 (nb s3) (g_good _ _ _ R3) (le_n _) (le_n _)) as R4.
+        destruct (visit_expression_statement v s3) as [[u| |x] s4]; [cbn; exact (g_good _ _ _ R4)|exact (g_good _ _ _ R4)|exact R4].
+      * pose proof (walk_stmt_safe E s Hwf env1 None s2 (nb s2) G2 W2 (Nat.le_0_l _) (le_n _)) as H. unfold StmtPost in H.
+        destruct (walk_stmt E env1 None s s2) as [[[ok env']| |x] s3]; [exact (g_good _ _ _ (proj1 H))|exact (g_good _ _ _ H)|exact H].
 Qed.
